@@ -15,16 +15,34 @@ from __future__ import annotations
 
 import random
 
-HEADER = """from typing import (Any, Callable, Generic, Iterable, Literal, Mapping, Optional,
+IMPORTS = """from typing import (Any, Callable, Generic, Iterable, Literal, Mapping, Optional,
                     Sequence, TypeVar, Union)
 T = TypeVar('T')
 T2 = TypeVar('T2')
-class A: ...
-class B(A): ...
-class C(A): ...
-class D(B, C): ...
-class E: ...
 """
+
+# The same five names with different inheritance relations (name -> bases), each listed
+# in definition order.  Variant 0 is the hierarchy of the design.
+HIERARCHIES = [
+    [("A", ()), ("B", ("A",)), ("C", ("A",)), ("D", ("B", "C")), ("E", ())],
+    [("A", ()), ("B", ()), ("C", ()), ("D", ()), ("E", ())],                   # all unrelated
+    [("A", ()), ("B", ("A",)), ("C", ()), ("D", ()), ("E", ())],               # only B(A)
+    [("B", ()), ("A", ("B",)), ("C", ()), ("D", ("C",)), ("E", ())],           # A(B): swapped
+    [("A", ()), ("B", ("A",)), ("C", ("B",)), ("D", ("C",)), ("E", ("D",))],   # chain
+    [("E", ()), ("D", ("E",)), ("C", ("D",)), ("B", ("C",)), ("A", ("B",))],   # reversed chain
+    [("C", ()), ("A", ("C",)), ("B", ("C",)), ("E", ("A", "B")), ("D", ())],   # rotated diamond
+    [("D", ()), ("E", ()), ("A", ("D", "E")), ("B", ("E",)), ("C", ("B",))],   # swapped roles
+]
+
+
+def hierarchy_text(variant=0):
+  out = []
+  for name, bases in HIERARCHIES[variant]:
+    out.append(f"class {name}({', '.join(bases)}): ..." if bases else f"class {name}: ...")
+  return "\n".join(out) + "\n"
+
+
+HEADER = IMPORTS + hierarchy_text(0)
 
 USER = ["A", "B", "C", "D", "E"]
 SCALARS = ["int", "float", "str", "bytes", "bool", "None", "complex"]
@@ -69,7 +87,8 @@ class TypeGen:
     """Members related by the hierarchy (for subclass absorption)."""
     r = self.r
     fam = r.choice([["A", "B", "C", "D"], ["int", "bool"], ["A", "D"], ["B", "D", "E"],
-                    ["int", "float", "complex"], ["A", "B", "C", "D", "E"]])
+                    ["int", "float", "complex"], ["A", "B", "C", "D", "E"], ["A", "B"],
+                    ["C", "D", "E"]])
     k = r.randint(2, len(fam))
     out = r.sample(fam, k)
     self.features.add("related")
@@ -312,11 +331,12 @@ def _sig_tvars_ok(s):
   return any(_has_tvar(pt) for _, pt in s["params"])
 
 
-def generate_unit(rng: random.Random, name: str, size=None, rich=True):
+def generate_unit(rng: random.Random, name: str, size=None, rich=True, hierarchy=0):
   """Returns {"name", "text", "features", "n_decls"}."""
   r = rng
   tg = TypeGen(r, rich)
-  lines = [HEADER.replace("Union)", "Union, overload)")]
+  lines = [(IMPORTS + hierarchy_text(hierarchy)).replace("Union)", "Union, overload)")]
+  tg.features.add(f"hierarchy{hierarchy}")
   nconst = size or r.randint(4, 10)
   nfun = size or r.randint(2, 6)
   for i in range(nconst):
@@ -345,6 +365,6 @@ def generate_unit(rng: random.Random, name: str, size=None, rich=True):
           "n_decls": nconst + nfun}
 
 
-def single_decl_unit(decl_text: str):
-  """Hierarchy header + one declaration (used by the minimiser)."""
-  return HEADER.replace("Union)", "Union, overload)") + decl_text + "\n"
+def single_decl_unit(decl_text: str, hierarchy=0):
+  """Hierarchy header + one declaration."""
+  return (IMPORTS + hierarchy_text(hierarchy)).replace("Union)", "Union, overload)") + decl_text + "\n"
